@@ -79,6 +79,8 @@ def gen(rng, tier, i):
     stores = []
     for _ in range(nstores):
         stores.append({"silent": rng.random() < 0.85,
+                       # on_state_change collaborator raising when one of these states is entered (invoked under the store lock)
+                       "cb": weighted(rng, [(8, None), (1, []), (1, [rng.choice(["NORMAL", "CONSERVING", "STARVING", "FEASTING"])])]),
                        "budget": rng.choice([0, 3, 5, 8, 10, 12]), "gtp": rng.choice([0, 0, 4, 6]),
                        "nadh": rng.choice([0, 0, 3, 6]), "max_debt": rng.choice([0, 0, 6, 10]),
                        "regen": (rng.choice([1, 2, 3]) if rng.random() < (0.12 if tier == "quick" else 0.2) else 0)})
@@ -125,6 +127,10 @@ def gen(rng, tier, i):
 def simplify(plan):
     stores = plan["config"]["stores"]
     for j, s in enumerate(stores):
+        if s.get("cb") is not None:
+            ns = [dict(x) for x in stores]
+            ns[j]["cb"] = None
+            yield {**plan, "config": {**plan["config"], "stores": ns}}
         for key in ("regen", "gtp", "nadh", "max_debt"):
             if s[key]:
                 ns = [dict(x) for x in stores]
@@ -143,8 +149,25 @@ class _Sink:
         return None
 
 
+class CallbackFault(Exception):
+    """Raised by the fake on_state_change collaborator."""
+
+
+def _mk_cb(raise_on):
+    def cb(state):
+        if getattr(state, "name", str(state)) in raise_on:
+            from opsim import core as _core
+            k = _core.current()
+            if k is not None:
+                k.fault("collab_raise")
+                k.probe("callback_raised")
+            raise CallbackFault(str(state))
+    return cb
+
+
 def _mk_store(cfg):
-    return ATP_Store(budget=cfg["budget"], gtp_budget=cfg["gtp"], nadh_reserve=cfg["nadh"],
+    return ATP_Store(on_state_change=(_mk_cb(cfg["cb"]) if cfg.get("cb") is not None else None),
+                     budget=cfg["budget"], gtp_budget=cfg["gtp"], nadh_reserve=cfg["nadh"],
                      regeneration_rate=float(cfg["regen"]), max_debt=cfg["max_debt"], silent=cfg.get("silent", True))
 
 
@@ -307,7 +330,7 @@ def run(plan, k):
     if v and v[0] == "deadlock":
         # the cycle: tasks that wait for a lock while holding one
         kinds = sorted({(t.op or "?") for t in sched.tasks if isinstance(t.waiting_on, SimLock) and t.held})
-        k.violation("no_deadlock", "deadlock", "+".join(kinds), " | ".join(v[1]))
+        k.violation("no_deadlock", "deadlock", "+".join(kinds) or "lock_never_released", " | ".join(v[1]))
         return
     if v and v[0] == "step_budget":
         k.violation("no_deadlock", "no_progress_within_step_budget", "run", str(v[1]))
